@@ -842,7 +842,7 @@ def replay_c11(d, case):
         if case.get('prior'):
             pr = case['prior']
             try:
-                Chef(plotfile=os.path.join(d, 'plt'), recipe=pr['recipe'], outfile=os.path.join(d, 'out0'), serial=case['serial'], kept_fields=pr['kept'], **pr['kw']).cook()
+                Chef(plotfile=os.path.join(d, 'plt'), recipe=pr['recipe'], outfile=os.path.join(d, pr.get('out', 'out0')), serial=case['serial'], kept_fields=pr['kept'], **pr['kw']).cook()
             except Exception:
                 pass
         try:
